@@ -315,7 +315,7 @@ PROPS = {
             "a coroutine is resumed by one thread at a time (C01) and a parked coroutine is taken out of its slot by exactly one of unparker / timer / canceller (C02, C08, C09): the model's wake step is atomic",
             "thread fallback values are dropped by std's TLS destructors at thread exit (not may's code)",
         ],
-        rule="live mode on the real runtime, 1-3 workers, pool capacity 2 (FIFO) so that stacks are reused at once: part 1: 2-4 coroutines and 0-2 threads access 1-3 coroutine_local! keys holding drop-counted values between yields / sleeps, coroutines end by return / panic / cancel; part 2: 1-3 pool histories: a predecessor that uses CLS and ends normally / by panic / cancelled while parked / after a park that timed out / as a cqueue arm removed around its send (the F8 window), then 2-3 fresh coroutines whose first action is Blocker::park(Some(d)) with or without unpark, a contended Mutex::lock, sleep, or a CLS access. Non-trivial = a fresh coroutine ran on a predecessor's stack (stack.reuse in the trace); distinct = SHA-1 of the canonical trace",
+        rule="live mode on the real runtime, 1-3 workers, pool capacity 2 (FIFO) so that stacks are reused at once: part 1: 2-4 coroutines and 0-2 threads access 1-3 coroutine_local! keys holding drop-counted values between yields / sleeps, coroutines end by return / panic / cancel; part 2: 1-3 pool histories: a predecessor that uses CLS and ends normally / by panic / cancelled while parked / after a park that timed out / as a cqueue arm removed around its send (the F8 window) / cancelled while parked with a guard whose Drop calls yield_now, sleep(1 ms) or Blocker::park(Some(1 ms)) during the Cancel unwind (the `yield_with` shortcut while unwinding: only check_cancel's get_co_para clears it), then 2-3 fresh coroutines whose first action is Blocker::park(Some(d)) with or without unpark, a contended Mutex::lock, sleep, or a CLS access. Non-trivial = a fresh coroutine ran on a predecessor's stack (stack.reuse in the trace); distinct = SHA-1 of the canonical trace",
     ),
     "C16": dict(
         lean_props=["MayVerif.Props.C16"],
